@@ -14,14 +14,14 @@ use std::hash::{Hash, Hasher};
 use std::sync::atomic::{AtomicBool, AtomicU8, AtomicU64, Ordering};
 use std::sync::{Arc, Mutex};
 use vrp_core::construction::features::TransportFeatureBuilder;
-use vrp_core::construction::heuristics::{RegistryContext, RouteContext, SolutionContext};
+use vrp_core::construction::heuristics::{InsertionContext, RegistryContext, RouteContext, SolutionContext};
 use vrp_core::models::common::{Schedule, TimeWindow};
 use vrp_core::models::problem::{
     Actor, Costs, Driver, Fleet, Job, MultiBuilder, SimpleTransportCost, Single, SingleBuilder, TransportCost,
     VehicleBuilder, VehicleDetailBuilder,
 };
 use vrp_core::models::solution::{Activity, Place, Registry, Route, Tour};
-use vrp_core::models::{GoalContextBuilder, Problem, ProblemBuilder};
+use vrp_core::models::{GoalContextBuilder, Problem, ProblemBuilder, Solution};
 use vverif::{PanicInfo, Rng, Run, guard, mix, par_for};
 
 const RULE: &str = "case = one operation history applied in lock-step to the real structure and to a Vec/bitset reference model, \
@@ -2284,6 +2284,132 @@ fn random_reg_history(cx: &mut Cx, w: &World, rng: &mut Rng, case_seed: u64, ctx
 }
 
 // ---------------------------------------------------------------------------------------------
+// a context created from a solution: the acquire / release calls made on the caller's behalf
+
+fn shared_environment() -> Arc<rosomaxa::prelude::Environment> {
+    static ENV: std::sync::OnceLock<Arc<rosomaxa::prelude::Environment>> = std::sync::OnceLock::new();
+    ENV.get_or_init(|| {
+        Arc::new(rosomaxa::prelude::Environment::new(
+            Arc::new(rosomaxa::prelude::DefaultRandom::default()),
+            None,
+            rosomaxa::utils::Parallelism::default(),
+            Arc::new(|_: &str| {}),
+            false,
+        ))
+    })
+    .clone()
+}
+
+/// `InsertionContext::new_from_solution` on a solution whose registry marks the vehicles of its tours as used (what the
+/// initial-solution readers produce): tours with jobs are kept, tours without jobs are dropped, and afterwards the registry
+/// of the context offers a vehicle exactly when no tour of the context uses it.
+fn from_solution_case(cx: &mut Cx, w: &World, rng: &mut Rng, case_seed: u64, want_sample: bool) {
+    let fw = &w.fleets[rng.weighted(&[2.0, 3.0, 3.0, 0.5, 2.0])];
+    let al = &w.small;
+    let n = fw.n();
+    cx.stats.evals += 1;
+    let rnd = Arc::new(SeqRandom::new(rng.next_u64()));
+    // which vehicles have a tour, and which jobs it serves (every job at most once in the solution)
+    let mut free_jobs: Vec<usize> = (0..al.jobs.len()).collect();
+    let mut plan: Vec<(usize, Vec<usize>)> = vec![];
+    for a in 0..n {
+        if rng.chance(0.45) {
+            let mut jobs = vec![];
+            while !free_jobs.is_empty() && rng.chance(0.45) {
+                jobs.push(free_jobs.remove(rng.usize_below(free_jobs.len())));
+            }
+            plan.push((a, jobs));
+        }
+    }
+    rng.shuffle(&mut plan);
+    let spec = json!({"part": "from-solution", "fleet": fw.name, "case_seed": case_seed,
+        "tours": plan.iter().map(|(a, jobs)| json!({"actor": a, "jobs": jobs.iter().map(|j| al.job_names[*j].clone()).collect::<Vec<_>>()})).collect::<Vec<_>>()});
+    let with_jobs = plan.iter().filter(|(_, j)| !j.is_empty()).count();
+    let without = plan.len() - with_jobs;
+    cx.obs("from_solution", match (with_jobs > 0, without > 0) {
+        (true, true) => "tours with and without jobs",
+        (true, false) => "tours with jobs only",
+        (false, true) => "tours without jobs only",
+        (false, false) => "no tour",
+    });
+    let built = guard(|| {
+        let mut registry = Registry::new(&fw.problem.fleet, rnd.clone());
+        let mut routes = vec![];
+        let mut uid = 0;
+        for (a, jobs) in plan.iter() {
+            let mut rc = RouteContext::new(fw.actor(*a).clone());
+            for j in jobs.iter() {
+                for (sub, s) in al.subs.iter().enumerate() {
+                    if s.job == *j {
+                        uid += 1;
+                        rc.route_mut().tour.insert_last(job_activity(al, sub, uid));
+                    }
+                }
+            }
+            registry.use_actor(fw.actor(*a));
+            routes.push(rc.route().deep_copy());
+        }
+        let unassigned = free_jobs.iter().map(|j| (al.jobs[*j].clone(), vrp_core::construction::heuristics::UnassignmentInfo::Unknown)).collect();
+        let solution = Solution { cost: 0., registry, routes, unassigned, telemetry: None };
+        InsertionContext::new_from_solution(fw.problem.clone(), (solution, None), shared_environment())
+    });
+    let ctx = match built {
+        Ok(ctx) => ctx,
+        Err(p) => {
+            cx.report_panic("from-solution", "new_from_solution", &p, spec);
+            return;
+        }
+    };
+    cx.obs("registry_ops", "InsertionContext::new_from_solution");
+    let verdict = guard(|| -> Result<(), Fail> {
+        let mut in_use = vec![0usize; n];
+        for rc in ctx.solution.routes.iter() {
+            match fw.idx_of(rc.route().actor.as_ref()).filter(|a| *a < n) {
+                Some(a) => in_use[a] += 1,
+                None => return fail("foreign-actor", "a tour of the context belongs to no vehicle of the fleet".into()),
+            }
+        }
+        for (a, jobs) in plan.iter() {
+            let kept = ctx.solution.routes.iter().find(|rc| fw.idx_of(rc.route().actor.as_ref()) == Some(*a));
+            match (jobs.is_empty(), kept) {
+                (false, None) => return fail("tour-lost", format!("the tour of vehicle {a} serves jobs but is not in the context")),
+                (false, Some(rc)) => {
+                    let served: HashSet<usize> = rc.route().tour.jobs().filter_map(|j| al.job_index(j)).collect();
+                    let expected: HashSet<usize> = jobs.iter().copied().collect();
+                    if served != expected {
+                        return fail("tour-changed", format!("the tour of vehicle {a} serves jobs {served:?}, the solution's tour served {expected:?}"));
+                    }
+                }
+                _ => {}
+            }
+        }
+        let offered: Vec<bool> = (0..n).map(|a| ctx.solution.registry.resources().available().any(|x| Arc::ptr_eq(&x, fw.actor(a)))).collect();
+        for a in 0..n {
+            if in_use[a] > 1 {
+                return fail("vehicle-used-twice", format!("vehicle {a} has {} tours in the context", in_use[a]));
+            }
+            if in_use[a] == 1 && offered[a] {
+                return fail("offers-used-actor", format!("vehicle {a} has a tour in the context and is offered by its registry"));
+            }
+            if in_use[a] == 0 && !offered[a] {
+                return fail("misses-free-actor", format!("vehicle {a} has no tour in the context but its registry does not offer it"));
+            }
+        }
+        Ok(())
+    });
+    match verdict {
+        Err(p) => cx.report_panic("from-solution", "new_from_solution", &p, spec),
+        Ok(Err(f)) => cx.report("from-solution", f.inv, "new_from_solution", &f.detail, spec),
+        Ok(Ok(())) => {
+            cx.distinct(&(3u8, fw.name, plan.iter().map(|(a, j)| (*a, j.clone())).collect::<Vec<_>>()));
+            if want_sample {
+                cx.run.sample(spec);
+            }
+        }
+    }
+}
+
+// ---------------------------------------------------------------------------------------------
 // drivers
 
 fn common_prefix<T: PartialEq>(a: &[T], b: &[T]) -> usize {
@@ -2448,10 +2574,11 @@ fn random_part(run: &Run, shared: &Shared) {
 
 fn random_case(cx: &mut Cx, w: &World, case_seed: u64, want_sample: bool) {
     let mut rng = Rng::new(case_seed);
-    match rng.weighted(&[0.5, 0.2, 0.3]) {
+    match rng.weighted(&[0.5, 0.2, 0.27, 0.03]) {
         0 => random_tour_history(cx, w, &mut rng, case_seed, want_sample),
         1 => random_reg_history(cx, w, &mut rng, case_seed, false, want_sample),
-        _ => random_reg_history(cx, w, &mut rng, case_seed, true, want_sample),
+        2 => random_reg_history(cx, w, &mut rng, case_seed, true, want_sample),
+        _ => from_solution_case(cx, w, &mut rng, case_seed, want_sample),
     }
 }
 
@@ -2481,6 +2608,14 @@ fn replay(run: &Run, shared: &Shared, path: &std::path::Path) {
             run_reg_sequence(&mut cx, w, fleet, part == "regctx", rand_seed, &ops, origin, 0);
             true
         }
+        // the case is a function of its seed (same dispatcher, same generator)
+        Some("from-solution") => match art["case_seed"].as_u64() {
+            Some(case_seed) => {
+                random_case(&mut cx, w, case_seed, false);
+                true
+            }
+            None => false,
+        },
         _ => false,
     });
     cx.flush();
@@ -2524,6 +2659,7 @@ fn main() {
 
     // floors: "observed nothing" is never a pass
     run.floor("registry histories on a fleet whose vehicles have identical shifts (actors differ by identity only)", run.observed("registry_fleets", "registry:twins7") + run.observed("registry_fleets", "registry_ctx:twins7"), 500);
+    run.floor("contexts created from a solution with tours with and without jobs", run.observed("from_solution", "tours with and without jobs"), 200);
     run.floor("histories", run.evaluations(), 1000);
     run.floor("harness-panics-absent", (shared.harness_panics.load(Ordering::Relaxed) == 0) as u64, 1);
     for key in [
